@@ -4,6 +4,7 @@ from . import ai, hirq, mirq
 from .hirq import peel, callee, call_args, last, path_def
 from .origin import Body
 from .report import RuleResult
+from . import mirq
 from .rules_numeric import allow
 from .rules_tables import INSTR, DEFN, dispatch_matches, arm_table
 
@@ -481,6 +482,190 @@ def rule_D7(ctx):
     r.analysed["contexts_scheduling_conditional_items"] = consumers
     r.floor("constructions with a conditional parent", n_ctor, 2)
     r.floor("handlers scheduling conditional_items", len(consumers), 1)
+    return r
+
+
+# --------------------------------------------------------------------------------------- G5
+# Reachable links form a tree.  build() walks the parse result with an explicit work stack and schedules every child it meets;
+# it terminates (C03) and attributes each node once (C04) only if no node is reachable twice from the root - a shared node or
+# a cycle makes it re-schedule nodes for ever.  `parse` can return such results for malformed input (`5 + + 3`), so the
+# builder must reject them itself: before anything is emitted there is a walk over get_left()/get_right() links from the root
+# that marks visited nodes and returns Err when it meets a marked one.
+
+
+def _tree_walk_loops(f):
+    """Loops in f that follow get_left / get_right, keep a visited collection and leave with an error on a repeat."""
+    out = []
+    body = Body(f)
+    for lp in walk(f["hir"]):
+        if lp.get("k") != "Loop":
+            continue
+        calls = [last(d) for d, _c in hirq.calls_in(lp)]
+        if "get_left" not in calls or "get_right" not in calls or "push_instruction" in calls:
+            continue
+        # collections written in the loop: `v[i] = ..`, `v.insert(..)`
+        written = set()
+        for n in walk(lp):
+            if n.get("k") == "Assign" and peel(n["l"]).get("k") == "Index":
+                l = hirq.local_of(peel(n["l"])["e"])
+                if l is not None:
+                    written.add(l)
+            if n.get("k") == "MethodCall" and n.get("m") in ("insert",):
+                l = hirq.local_of(n["recv"])
+                if l is not None:
+                    written.add(l)
+        # `*slot = true` where slot came from `v.get_mut(i)` / `v.iter_mut()`
+        deref_store = any(n.get("k") == "Assign" and n["l"].get("k") == "Unary" and n["l"].get("op") == "*" for n in walk(lp))
+        if deref_store:
+            for n in walk(lp):
+                if n.get("k") == "MethodCall" and n.get("m") in ("get_mut", "entry", "iter_mut"):
+                    l = hirq.local_of(n["recv"])
+                    if l is not None:
+                        written.add(l)
+        if not written:
+            continue
+        # an error exit whose condition reads one of them
+        def reads_written(e):
+            for x in walk(e):
+                if x.get("k") == "Path" and x.get("res") == "local" and x.get("lid") in written:
+                    return True
+            return False
+        def has_err_exit(e):
+            for x in walk(e or {}):
+                if x.get("k") == "Ret" and (callee(x.get("e") or {}) or "").endswith("::Err"):
+                    return True
+                if x.get("k") == "Call" and (callee(x) or "").endswith("::Err"):
+                    return True
+            return False
+        ok = False
+        for n in walk(lp):
+            if n.get("k") == "If" and reads_written(n["cond"]) and (has_err_exit(n.get("then")) or has_err_exit(n.get("else"))):
+                ok = True
+            if n.get("k") == "If" and any(x.get("k") == "MethodCall" and x.get("m") == "insert" and hirq.local_of(x["recv"]) in written for x in walk(n["cond"])) and (has_err_exit(n.get("then")) or has_err_exit(n.get("else"))):
+                ok = True
+            if n.get("k") == "Match" and n.get("src") == "Normal" and reads_written(n["scrut"]) and any(has_err_exit(a["body"]) for a in n["arms"]):
+                ok = True
+        if ok:
+            out.append(lp)
+    return out
+
+
+def rule_G5(ctx):
+    F = ctx.F
+    r = RuleResult("G5", "reachable links form a tree: before emitting anything build() walks the left/right links from the root, marks visited nodes and rejects a node met twice (a shared node or a cycle would make the work-stack walk re-schedule nodes for ever)")
+    bf = [f for f in builder_fns(F) if f.get("name") == "build" and f.get("vis") == "Public"]
+    if not bf:
+        r.anchor_missing("build()", "public fn build not found")
+        return r
+    b0 = bf[0]
+    search = [b0]
+    for d, _n in hirq.calls_in(b0["hir"]):
+        g = F.fns.get(d)
+        if g is not None and g["crate"] == b0["crate"] and g["kind"] != "Closure" and g not in search and not (g.get("name") or "").startswith("handle_"):
+            search.append(g)
+    found = []
+    for g in search:
+        for lp in _tree_walk_loops(g):
+            found.append((g, lp))
+    r.examine((b0["path"], "tree-walk"), True, {"fn": b0["path"], "functions_searched": [g["path"] for g in search], "validating_walks": [loc(lp) for _g, lp in found]})
+    if not found:
+        r.finding(b0["path"], "no-tree-validation", loc(b0["hir"]),
+                  "build() never checks that the nodes reachable from the root through get_left()/get_right() are reached once: for a parse result with a shared node or a cycle (parse returns one for `5 + + 3`) the work-stack walk schedules nodes for ever - build does not terminate and memory grows without bound")
+    else:
+        # the walk must come before emission: in build() itself, its statement precedes the first statement that emits
+        g, lp = found[0]
+        if g is b0:
+            top = peel(b0["hir"])
+            stmts = top["b"]["stmts"] if top.get("k") == "Block" else []
+            def idx_of(pred):
+                for i, st in enumerate(stmts):
+                    if any(pred(x) for x in walk(st)):
+                        return i
+                return None
+            wi = idx_of(lambda x: x is lp)
+            ei = idx_of(lambda x: x.get("k") in ("Call", "MethodCall") and last(callee(x) or "") in ("handle_parse_node",))
+            if wi is not None and ei is not None and wi > ei:
+                r.finding(b0["path"], "tree-validation-after-emission", loc(lp), "the tree validation walk runs after the emission loop has started")
+    for f in F.fns_in("gfixture::g5::"):
+        if f["kind"] == "Closure":
+            continue
+        hit = not _tree_walk_loops(f)
+        if f["name"].startswith("ctl_"):
+            r.control(f["name"], hit)
+        elif f["name"].startswith("ok_"):
+            r.neg_control(f["name"], not hit)
+    return r
+
+
+# --------------------------------------------------------------------------------------- A10
+# Entry before instructions.  A root's jump-table entry is `get_instruction_len()` at the moment the root starts: it must be
+# registered (pushed, or patched into its placeholder) before the first instruction of the root is emitted, otherwise the
+# entry points past it.  Must-pass-through on build()'s MIR CFG: every path from the function entry to a call that emits an
+# instruction passes a jump-table registration.
+
+
+def _emitting_fns(F):
+    """builder functions that (transitively) call GarnishData::push_instruction"""
+    fns = {f["path"]: f for f in builder_fns(F)}
+    direct = set()
+    calls = {}
+    for p, f in fns.items():
+        cs = set()
+        for b in f["mir"]["blocks"]:
+            t = b["term"]
+            if t["k"] == "Call":
+                d = t.get("resolved") or t.get("def") or ""
+                if (t.get("def") or "") == PUSH_INSTR:
+                    direct.add(p)
+                if d in fns:
+                    cs.add(d)
+                for ga in t.get("gargs", []):
+                    if ga.get("fn") in fns:
+                        cs.add(ga["fn"])
+        calls[p] = cs
+    em = set(direct)
+    changed = True
+    while changed:
+        changed = False
+        for p, cs in calls.items():
+            if p not in em and cs & em:
+                em.add(p)
+                changed = True
+    return em
+
+
+def entry_order_witness(F, f, emitters):
+    mir = f["mir"]
+    def is_reg(bi, b):
+        t = b["term"]
+        return t["k"] == "Call" and last(t.get("def") or "") in ("push_to_jump_table", "get_from_jump_table_mut") and "GarnishData" in (t.get("def") or "")
+    def is_emit(bi, b):
+        t = b["term"]
+        if t["k"] != "Call":
+            return False
+        d = t.get("resolved") or t.get("def") or ""
+        return (t.get("def") or "") == PUSH_INSTR or d in emitters
+    return mirq.path_avoiding_to(mir, [0], is_reg, is_emit), sum(1 for i, b in enumerate(mir["blocks"]) if is_reg(i, b)), sum(1 for i, b in enumerate(mir["blocks"]) if is_emit(i, b))
+
+
+def rule_A10(ctx):
+    F = ctx.F
+    r = RuleResult("A10", "entry before instructions: on every path through build() a jump-table registration (push_to_jump_table / patch through get_from_jump_table_mut) precedes the first call that emits an instruction")
+    bf = [f for f in builder_fns(F) if f.get("name") == "build" and f.get("vis") == "Public"]
+    if not bf:
+        r.anchor_missing("build()", "public fn build not found")
+        return r
+    f = bf[0]
+    em = _emitting_fns(F)
+    w, n_reg, n_emit = entry_order_witness(F, f, em)
+    r.examine((f["path"], "entry-order"), True, {"fn": f["path"], "registration_sites": n_reg, "emitting_call_sites": n_emit, "emitting_functions": len(em)})
+    r.floor("jump-table registration sites in build()", n_reg, 1)
+    r.floor("emitting call sites in build()", n_emit, 1)
+    if w is not None:
+        blk = f["mir"]["blocks"][w[-1]]
+        r.finding(f["path"], "emission-before-entry", loc(blk["term"]),
+                  "a path through build() (blocks %s) emits an instruction at %s before any jump-table entry is registered: the entry registered afterwards is get_instruction_len() *after* that instruction, so the program's entry point skips it (or points past the end)" % (w, loc(blk["term"])),
+                  path=["CFG blocks: " + " -> ".join("bb%d" % x for x in w)])
     return r
 
 
